@@ -582,6 +582,20 @@ func main() {
 		accepted(c, decodeJSON(c, doc))
 	})
 
+	// JSON documents that are not objects, and whitespace around everything: the literals json.Unmarshal treats
+	// specially (null is never handed to an UnmarshalJSON method by the standard library, but the package's own
+	// Unmarshal* functions call it directly)
+	jsonTokens := []string{"null", "true", "0", "1.5", `""`, `"Feature"`, "[]", "[null]", "{}", `{"type":"Feature"}`, `{"type":"Feature","geometry":null}`, `{"type":"FeatureCollection","features":[null]}`, `{"type":"FeatureCollection","features":[ null , {"type":"Feature","geometry":null} ]}`, `{"type":"Point","coordinates":null}`}
+	pads := []string{"", " ", "\n", "\t \r\n"}
+	r.ExploreSharded("geojson-literals", fmt.Sprintf("%d JSON literals and skeleton documents x %d^2 whitespace paddings before and after, through every JSON entry point", len(jsonTokens), len(pads)), mc.Opts{MaxDev: -1}, 4, func(c *mc.Ctx) {
+		ti := c.Choose(len(jsonTokens))
+		if !r.Owned(c, ti) {
+			return
+		}
+		doc := []byte(pads[c.Choose(len(pads))] + jsonTokens[ti] + pads[c.Choose(len(pads))])
+		accepted(c, decodeJSON(c, doc))
+	})
+
 	// 5. mutation closure of valid encodings
 	var wkbSeeds [][]byte
 	for i, g := range seedGeoms {
